@@ -61,7 +61,7 @@ type tr2 struct {
 }
 
 var leanTypeOfKind = map[string]string{"ents": "List Entry", "omap": "List Entry", "int": "Int", "cids": "List Hash",
-	"set": "List Hash", "smap": "List (Hash × Hash)", "entry": "Entry", "hash": "Hash", "bool": "Bool", "bytes": "Bytes", "key": "Entry", "log": "Unit", "queue": "Q", "optentry": "Option Entry", "chan": "List Entry", "iteropts": "Unit", "appendopts": "Unit", "fetchopts": "Unit", "identity": "Unit", "logopts": "Unit"}
+	"set": "List Hash", "smap": "List (Hash × Hash)", "entry": "Entry", "hash": "Hash", "bool": "Bool", "bytes": "Bytes", "key": "Entry", "log": "Unit", "queue": "Q", "optentry": "Option Entry", "chan": "List Entry", "iteropts": "Unit", "appendopts": "Unit", "fetchopts": "Unit", "identity": "Unit", "logopts": "Unit", "manifest": "Unit", "snapdata": "Unit", "sortfn": "Unit"}
 
 func (t *tr2) fail(n ast.Node, why string) string {
 	t.errs = append(t.errs, fmt.Sprintf("%s: %s", why, src(t.fset, n)))
@@ -267,6 +267,17 @@ func (t *tr2) expr(e ast.Expr) (string, string) {
 		if id, ok := x.X.(*ast.Ident); ok && id.Name == t.recv && t.recv != "" {
 			if k, ok := t.kinds[id.Name+"."+x.Sel.Name]; ok {
 				return leanName(id.Name + "." + x.Sel.Name), k
+			}
+		}
+		if id, ok := x.X.(*ast.Ident); ok && t.kinds[id.Name] == "manifest" && x.Sel.Name == "Heads" {
+			return "manifestHeads", "cids"
+		}
+		if id, ok := x.X.(*ast.Ident); ok && t.kinds[id.Name] == "snapdata" {
+			switch x.Sel.Name {
+			case "Values":
+				return "dataValues", "ents"
+			case "Heads":
+				return "dataHeads", "cids"
 			}
 		}
 		if id, ok := x.X.(*ast.Ident); ok && t.kinds[id.Name] == "logopts" {
@@ -936,6 +947,9 @@ func (t *tr2) block(stmts []ast.Stmt, fall string, inLoop bool) string {
 						}
 					}
 					v := f["Values"]
+					if hv := f["Heads"]; len(cl.Elts) == 3 && v != "" && t.kinds[v] == "ents" && f["ID"] == "logHeads.ID" && t.kinds[hv] == "cids" {
+						return "(some (" + leanName(v) + ", " + leanName(hv) + "))"
+					}
 					if cl2 := len(cl.Elts); cl2 == 3 || cl2 == 2 {
 						if v != "" && t.kinds[v] == "ents" && f["ID"] == "jsonLog.ID" && (f["Heads"] == "jsonLog.Heads" || cl2 == 2) {
 							// id and heads are handed through from the caller's manifest: the entries are the result
@@ -1107,6 +1121,15 @@ func (t *tr2) block(stmts []ast.Stmt, fall string, inLoop bool) string {
 			if len(c.Args) == 3 && src(t.fset, c.Args[0]) == "sorting.Compare" && src(t.fset, c.Args[2]) == "false" {
 				if id, ok := c.Args[1].(*ast.Ident); ok && t.kinds[id.Name] == "ents" {
 					return let(leanName(id.Name), "(goSort clockAsc "+leanName(id.Name)+")")
+				}
+			}
+			// sorting.Sort(sortFn, xs, false) with the comparison function chosen before: its ascending less-function is
+			// the parameter sortAsc
+			if len(c.Args) == 3 && src(t.fset, c.Args[2]) == "false" {
+				if fn, ok := c.Args[0].(*ast.Ident); ok && t.kinds[fn.Name] == "sortfn" {
+					if id, ok := c.Args[1].(*ast.Ident); ok && t.kinds[id.Name] == "ents" {
+						return let(leanName(id.Name), "(goSort sortAsc "+leanName(id.Name)+")")
+					}
 				}
 			}
 			// sorting.Sort(l.SortFn, xs, true): the log's descending order (parameter sortDesc)
@@ -1630,7 +1653,7 @@ func (t *tr2) liveVars() []string {
 	}
 	var vs []string
 	for v, k := range t.kinds {
-		if strings.Contains(v, ".") || isParam[leanName(v)] || leanTypeOfKind[k] == "" || k == "log" || k == "iteropts" || k == "appendopts" || k == "fetchopts" || k == "identity" || k == "logopts" || k == "ctx" || k == "key" {
+		if strings.Contains(v, ".") || isParam[leanName(v)] || leanTypeOfKind[k] == "" || k == "log" || k == "iteropts" || k == "appendopts" || k == "fetchopts" || k == "identity" || k == "logopts" || k == "manifest" || k == "snapdata" || k == "sortfn" || k == "ctx" || k == "key" {
 			continue
 		}
 		vs = append(vs, v)
@@ -2669,6 +2692,66 @@ func cleanDecl(s string) string {
 	return s
 }
 
+// fromMultihashDecls: the default loader around its fetch — (A) what fromMultihash (log_io.go) makes of the fetched
+// entries: sort-and-trim under a limit, the hashes of the entries that the manifest names as heads; (B) what
+// NewFromMultihash (log.go) makes of that before calling NewLog: the entry map and the head entries
+func (t *tr2) fromMultihashDecls(fio, flog *ast.File) string {
+	reset := func(name, ret string, partial bool) {
+		t.subst = map[string]string{}
+		t.loops, t.helperDefs, t.aliases = nil, nil, nil
+		t.fn, t.recv, t.brk, t.noResult, t.emitter = name, "", "", "", ""
+		t.monadic, t.joinN, t.hasFuel, t.usesFuel, t.partial = 0, 0, false, false, partial
+		t.retType = ret
+	}
+	fd := findFunc(fio, "fromMultihash")
+	if fd == nil || fd.Body == nil {
+		return t.fail(&ast.BlockStmt{}, "fromMultihash not found")
+	}
+	t.prepare(fd)
+	iFetch := -1
+	for i, st := range fd.Body.List {
+		if strings.Contains(src(t.fset, st), "entry.FetchAll") {
+			iFetch = i
+		}
+	}
+	if iFetch < 0 {
+		return t.fail(fd, "shape of fromMultihash")
+	}
+	if as, ok := fd.Body.List[iFetch].(*ast.AssignStmt); !ok || len(as.Lhs) != 1 || src(t.fset, as.Lhs[0]) != "entries" {
+		return t.fail(fd.Body.List[iFetch], "the fetch result is not `entries`")
+	}
+	reset("fromMultihashTail", "Option (List Entry × List Hash)", true)
+	t.kinds = map[string]string{"options": "fetchopts", "entries": "ents", "logHeads": "manifest", "sortFn": "sortfn"}
+	t.params = []string{"(sortAsc : Entry → Entry → Bool)", "(optLength : Option Int)", "(manifestHeads : List Hash)", "(entries : List Entry)"}
+	t.pnames = []string{"sortAsc", "optLength", "manifestHeads", "entries"}
+	a := strings.Join(strings.Fields(t.block(fd.Body.List[iFetch+1:], "", false)), " ")
+	defA := strings.Join(t.loops, "\n") + "def fromMultihashTail " + strings.Join(t.params, " ") + " : Option (List Entry × List Hash) :=\n  " + a + "\n"
+	// (B)
+	fd2 := findFunc(flog, "NewFromMultihash")
+	if fd2 == nil || fd2.Body == nil {
+		return t.fail(&ast.BlockStmt{}, "NewFromMultihash not found")
+	}
+	t.prepare(fd2)
+	i0, n := -1, len(fd2.Body.List)
+	for i, st := range fd2.Body.List {
+		if src(t.fset, st) == "entries := entry.NewOrderedMapFromEntries(data.Values)" {
+			i0 = i
+		}
+	}
+	ret, ok := fd2.Body.List[n-1].(*ast.ReturnStmt)
+	if i0 < 0 || !ok || !strings.Contains(src(t.fset, ret), "Entries: entry.NewOrderedMapFromEntries(data.Values)") || !strings.Contains(src(t.fset, ret), "Heads: heads") {
+		return t.fail(fd2, "shape of NewFromMultihash")
+	}
+	reset("newFromMultihashHeads", "List Entry × List Entry", false)
+	t.kinds = map[string]string{"data": "snapdata"}
+	t.params = []string{"(dataValues : List Entry)", "(dataHeads : List Hash)"}
+	t.pnames = []string{"dataValues", "dataHeads"}
+	b := strings.Join(strings.Fields(t.block(fd2.Body.List[i0:n-1], "((omFromList dataValues), heads)", false)), " ")
+	defB := strings.Join(t.loops, "\n") + "def newFromMultihashHeads (dataValues : List Entry) (dataHeads : List Hash) : List Entry × List Entry :=\n  " + b + "\n"
+	t.loops = nil
+	return defA + "\n" + defB
+}
+
 func findMethod(f *ast.File, name string) *ast.FuncDecl {
 	for _, d := range f.Decls {
 		if fd, ok := d.(*ast.FuncDecl); ok && fd.Name.Name == name && fd.Recv != nil {
@@ -2690,7 +2773,7 @@ func renderSlices(repo string) map[string]string {
 		jobs []job
 	}{
 		{"Misc", []job{{"log.go", []string{"maxClockTimeForEntries", "#setIdentity"}}, {"entry/entry.go", []string{"uniqueCIDs"}}}},
-		{"Loaders", []job{{"entry/utils.go", []string{"Difference"}}, {"log_io.go", []string{"entryLastN", "entryLastNKeeping", "entrySliceRange", "#fromEntry", "#fromJSON"}}}},
+		{"Loaders", []job{{"entry/utils.go", []string{"Difference"}}, {"log_io.go", []string{"entryLastN", "entryLastNKeeping", "entrySliceRange", "#fromEntry", "#fromJSON", "#fromMultihash"}}}},
 		{"Heads", []job{{"entry/utils.go", []string{"FindHeads"}}}},
 		{"NewLog", []job{{"log.go", []string{"#newLog"}}}},
 		{"Traverse", []job{{"log.go", []string{"traverse"}}}},
@@ -2739,6 +2822,15 @@ func renderSlices(repo string) map[string]string {
 				}
 				if n == "#newLog" {
 					fmt.Fprintf(&b, "/-- `NewLog` (%s): clock time, heads and index keys from the options -/\n%s\n", j.file, cleanDecl(t.newLogDecl(f)))
+					continue
+				}
+				if n == "#fromMultihash" {
+					flog, err := parser.ParseFile(t.fset, filepath.Join(repo, "log.go"), nil, parser.SkipObjectResolution)
+					if err != nil {
+						t.errs = append(t.errs, err.Error())
+						continue
+					}
+					fmt.Fprintf(&b, "/-- `fromMultihash` (%s) and `NewFromMultihash` (log.go) around the fetch -/\n%s\n", j.file, cleanDecl(t.fromMultihashDecls(f, flog)))
 					continue
 				}
 				if n == "#admission" {
